@@ -60,6 +60,24 @@ unequal modes       sub-check `qtt_shapes`: optima_qtt on power-of-two mode size
                     [8,4,8], [4,4,8], ..., d = 2, 3 (thorough: up to 5)).  Documented outcome: ValueError.  Asserted: the
                     call raises ValueError, or it returns and the validity clause holds (integer indices of length d inside
                     the bounds, values = entries, y_min <= y_max, inputs untouched); any other exception is a violation.
+large modes         sub-check `qtt_big`: optima_qtt (and ind_qtt_to_tt on its own, bit strings up to q = 30, d = 1..3) on shapes
+                    [2^q]*d with q = 9..12 (mode sizes 512..4096, d = 2, 3; up to 2^36 elements), where index arithmetic that is only
+                    right for short modes (a narrow integer type, the low byte of a packed bit field, a dropped top bit) shows.
+                    No dense enumeration (except kind `full`): values are checked against an own chain evaluation at the returned
+                    index, the distance of the QTT image is bounded core by core (qtt_distance), and the optimum is known BY
+                    CONSTRUCTION; its position p is drawn with emphasis on p >= 256, p = 2^q - 1, p = 256, top bit set, low byte 0.
+                    (a) `qsep`: rank-1 TT whose mode vectors are Kronecker products of 2-vectors (larger modulus at bit j of p, the
+                    other entry rho_j times it, |rho_j| <= 0.95, optionally tied / zero bits): the QTT image is rank 1 (up to
+                    junk singular directions of relative size eps that matrix_svd keeps), so the property's rank-1 clause holds
+                    for every k: max-modulus member exact within tau = 2*q*d*eta + 2*delta (class BigRef), opposite member ->
+                    open finding `rank1-opposite-side` when sub-optimal.  (b) `dominant`: the same background normalised to unit
+                    Frobenius norm plus amp*e_p, |amp| = 3..100: every partial index on the way to p has sub-tensor norm >=
+                    |amp| - 1, every other one <= 1, so the beam (k rows of largest sub-tensor norm) keeps p first for every
+                    k >= 1 in both sweeps: the reported maximum (amp > 0) / minimum (amp < 0) must sit AT p (asserted while
+                    eta < (|amp| - 2)/4).  (c) `qsum`: sums of 2..3 such terms, pruned beam: validity, ordering and agreement with
+                    optima_tt of the QTT image mapped back by the bit formula.  (d) `full` (~2 % of the cases): shape [512, 512],
+                    1..2 terms (+ isolated entry), k >= 2^18: all full-beam claims of `run_qtt` against the dense tensor.
+                    The agreement with the mapped-back QTT search is asserted in (a)-(c).
 long chains         sub-check `long`: d = 8..150 (thorough 200) modes of size 1..4, candidate counts 1..20 (always k << size), the overall
                     magnitude 1e-303..1e+303 spread over the cores (10**(x/d) or 2**e_k per core, one core, random / ramp / zigzag
                     paths of per-core exponents whose partial sums stay within 303 decades).  Dense enumeration is impossible; the
@@ -102,7 +120,7 @@ LEVEL = "exploration"
 RULE = ("Hypothesis draws TT specs (d 2..5(6), mode sizes 1..5, rank profiles rank1/uniform/ragged/over_ranked, value "
         "families smallint(ties)/dyadic/float/gauss/scaled/rank_deficient/zero/explicit, optionally shifted to "
         "all-negative / all-positive / nearly constant by an extra rank-1 block), candidate counts k in {1, small, any, "
-        ">= size}, both sweep directions; optima_qtt on shapes [2^q]*d, q 1..3, incl. Kronecker-separable rank-1 inputs; "
+        ">= size}, both sweep directions; optima_qtt on shapes [2^q]*d, q 1..3 (q 9..12: see large modes), incl. Kronecker-separable rank-1 inputs; "
         "rank-1 Chebyshev coefficient tensors with mode sizes 1..7 for the functional variant; an exhaustive sweep over "
         "integer tensors of shapes [2,2]/[2,3]/[3,2] (rank 1, entries -2..2, every k; rank 2 [2,2], entries -1..1; the quick "
         "tier sweeps fixed subsets: 1/16 of the two larger shapes, 1/3 of the rank-2 part); wide-dynamic-range tensors (order-one "
@@ -113,14 +131,18 @@ RULE = ("Hypothesis draws TT specs (d 2..5(6), mode sizes 1..5, rank profiles ra
         "extreme scales: order-one tensors (d 2..5, optionally shifted all-negative / all-positive) times 10**x or 2**x, |x| <= 250 "
         "decades (emphasis on 100..140 and 200..250), factor balanced / first / last / one core / per-core exponents of both signs "
         "with bounded partial sums, any k; optima_qtt on power-of-two mode sizes that are not all equal (d 2..3(5), q 1..3, first and "
-        "last mode equal or not). long chains: d 8..150(200) modes of size 1..4, rank 1 (mode vectors nearly flat 1+-2**-7..-27 / gauss / uniform / "
+        "last mode equal or not). large modes: optima_qtt on [2^q]*d, q 9..12, d 2..3, k in {1,2,3,5,10,30,100}: Kronecker-separable rank-1 "
+        "tensors / unit-norm separable background + isolated entry of modulus 3..100 / sums of 2..3 separable terms, peak positions drawn "
+        "from {2^q-1, 256, top bit set, low byte zero, >= 256, last 256, 255/256/257/511/512/n-2/n-256/n-257, anywhere}, tied and zero bits, "
+        "~2 % full beam on [512,512]; ind_qtt_to_tt on the bit strings of such positions for q up to 30, d 1..3. long chains: d 8..150(200) modes of size 1..4, rank 1 (mode vectors nearly flat 1+-2**-7..-27 / gauss / uniform / "
         "small integers / dyadic / peaky / half flat half peaky / mixed; positive, negative, mixed signs) or rank 1 with a rank-2 segment "
         "of 2..3 cores holding a dominant isolated entry (|amp| 3..100, start / middle / end), magnitude 10**x or 2**x, |x| <= 303 decades "
         "(emphasis on 280..303), balanced / one core / random, ramp and zigzag per-core exponents, k in 1..20, optimum known by construction. "
         "Oracle = dense enumeration of all entries (long chains: per-mode ratio tables). Non-trivial = at least two modes of size >= 2 "
         "and (some rank >= 2, or tied extremal values, or rank 1 with k < size); functional: >= 2 modes of size >= 3; history: a call "
         "after a refill that changed the values, with k >= size or rank-1 content; "
-        "scaled: the same with |scale| beyond 1e+-90; qtt_shapes: every case; long: d >= 30; "
+        "scaled: the same with |scale| beyond 1e+-90; qtt_shapes: every case; long: d >= 30; qtt_big: the constructed optimum (qsum: the "
+        "answer) has an index >= 256 in some mode and the tolerance is below half the gap to the next modulus; "
         "distinct by SHA-1 of the case.")
 TOLERANCES = ("validity: |y - dense[i]| <= 32*(d+sum r+max n)*eps*E(|cores|)[i] (== on small-integer cores); max-modulus under a "
               "full beam: tau = 9*K*eps*prod||G_k||_F (rank 1: 9*K*eps*max|Y|); opposite extremum: 2*tau + min(sqrt(t), t/(D-tau)), "
@@ -129,7 +151,10 @@ TOLERANCES = ("validity: |y - dense[i]| <= 32*(d+sum r+max n)*eps*E(|cores|)[i] 
               "the exactly normalised cores M_k = Y_k/2**e_k, values divided exactly by 2**sum(e_k), t with the actual cores of "
               "teneva.const evaluated in log2; long chains: |Y[i]|/max|Y| >= 1 - 16*d*(d+8)*eps (rows compared by the beam carry <= 5j "
               "relative roundings after j cores) + 9*K_seg*eps*S_T/|T[p]| for a rank-2 segment; values: K*eps*abs-majorant in an own "
-              "scaled evaluation; ret_all order / top-k: relative 2*tol plus the moduli below 2**-1020 (subnormal in the sweep)")
+              "scaled evaluation; ret_all order / top-k: relative 2*tol plus the moduli below 2**-1020 (subnormal in the sweep); "
+              "large modes: values K*eps*abs-majorant of an own chain evaluation; delta <= sum_k max_i||W_k[i]-G_k[i]||_F prod_{j!=k} max_i "
+              "max(||W_j[i]||_F, ||G_j[i]||_F) (W = blocks of the QTT image); eta = delta*sqrt(size) + 9*K*eps*prod||Zq_k||_F; rank-1 image: "
+              "tau = 2*q*d*eta + 2*delta; dominant entry: index equality while eta < (|amp|-2)/4")
 ASSUMPTIONS = [
     "d >= 2 (library-wide precondition), k >= 1 integer",
     "exactness under a full beam is asserted for k >= number of tensor elements (then k >= every partial index set)",
@@ -156,6 +181,10 @@ ASSUMPTIONS = [
     "long chains, kind `segment` (rank 2 on 1..2 bonds): exactness for k < size is NOT in the property text; it is asserted because it "
     "follows from the anchored mechanism (beam keeps the rows of largest sub-tensor norm) for a separable chain around a block whose "
     "dominant entry exceeds twice the Frobenius norm of the rest of the block (derivation in the module docstring)",
+    "qtt_big: mode sizes 512..4096 (q 9..12), d 2..3, cores of O(1)..O(100) magnitude, default e, r of optima_qtt; kind `dominant` (rank 2): "
+    "exactness for k < size is NOT in the property text; it is asserted because it follows from the anchored mechanism (beam keeps the rows "
+    "of largest sub-tensor norm) when one entry exceeds three times the Frobenius norm of the rest, and only while the error bound eta of "
+    "the computed sub-tensor norms is below a quarter of the margin |amp| - 2; kind `qsum`: no optimality claim",
     "qtt_shapes: for unequal power-of-two mode sizes the documented outcome is ValueError; 'raises ValueError or returns a valid "
     "answer' is asserted, optimality of a returned answer is not",
 ]
@@ -986,8 +1015,9 @@ def check_ind_qtt_to_tt(ctx, Iq, d, q):
               "ind_qtt_to_tt(single array) differs from the bit formula", got=np.asarray(got).tolist(), want=want[0], q=q)
 
 
-def run_qtt(ctx, Y, k, q, d, ex, qsep=False, labels=True):
-    """optima_qtt on the TT-tensor Y of shape [2^q]*d (qsep: rank 1 after quantisation by construction)."""
+def run_qtt(ctx, Y, k, q, d, ex, qsep=False, labels=True, diff=True):
+    """optima_qtt on the TT-tensor Y of shape [2^q]*d (qsep: rank 1 after quantisation by construction).
+    diff=False skips the second search of the QTT image (sub-check `qtt_big`, full beam over 2^18 elements: the dense oracle is complete)."""
     n = [2 ** q] * d
     Y0 = [G.copy() for G in Y]
 
@@ -1031,10 +1061,11 @@ def run_qtt(ctx, Y, k, q, d, ex, qsep=False, labels=True):
     check_unmodified(ctx, Y, Y0)
 
     # "transformed into the QTT-format and then optima_tt is applied": the indices are those of the QTT search, mapped back
-    jm, _, jM, _ = ctx.lib(teneva.optima_tt, Zq, k)
-    ctx.check(own_ind_qtt_to_tt(jm, d, q) == list(a) and own_ind_qtt_to_tt(jM, d, q) == list(b),
-              "optima_qtt: indices are not the optima_tt indices of the QTT image mapped back to TT indices",
-              qtt_min=np.asarray(jm).tolist(), qtt_max=np.asarray(jM).tolist(), tt_min=list(a), tt_max=list(b), q=q)
+    if diff:
+        jm, _, jM, _ = ctx.lib(teneva.optima_tt, Zq, k)
+        ctx.check(own_ind_qtt_to_tt(jm, d, q) == list(a) and own_ind_qtt_to_tt(jM, d, q) == list(b),
+                  "optima_qtt: indices are not the optima_tt indices of the QTT image mapped back to TT indices",
+                  qtt_min=np.asarray(jm).tolist(), qtt_max=np.asarray(jM).tolist(), tt_min=list(a), tt_max=list(b), q=q)
 
     if k >= ref.size or not r1_in:
         check_pair(ctx, ref, y_min, y_max, k, "optima_qtt", rank1_input=False)
@@ -1111,6 +1142,270 @@ def prop_qtt_shapes(case, ctx):
     y_max = check_value(ctx, ref, b, y_max, f"optima_qtt(y_max), shape {n}", False)
     ctx.check(y_min <= y_max, "optima_qtt: y_min > y_max", y_min=y_min, y_max=y_max, shape=n)
     check_unmodified(ctx, Y, Y0)
+
+
+# ------------------------------------------------------------------------------------------------ quantised variant, LARGE modes
+
+BIG_Q = (9, 9, 9, 10, 10, 11, 12)
+BIG_K = (1, 1, 2, 3, 5, 10, 30, 100)
+BIG_POS = ("last", "last", "b256", "top", "top", "hi_only", "ge256", "ge256", "tail", "edge", "any")
+BIG_KINDS = ("qsep",) * 4 + ("dominant",) * 3 + ("qsum",) * 3
+BIG_AMPS = (3.0, 4.0, 10.0, 30.0, 100.0)
+BIG_DYADIC = (0.125, 0.25, 0.5, 0.75, 0.875)
+
+
+@st.composite
+def big_index(draw, q):
+    """One index of a mode of size n = 2^q >= 512, emphasis on what index arithmetic in a narrow type / on the low byte gets wrong."""
+    n = 2 ** q
+    cls = draw(st.sampled_from(BIG_POS))
+    if cls == "last":
+        return n - 1                                             # all bits set
+    if cls == "b256":
+        return 256                                               # bit 8 alone
+    if cls == "top":
+        return (n >> 1) + draw(st.integers(0, (n >> 1) - 1))     # most significant bit set
+    if cls == "hi_only":
+        return draw(st.integers(1, (n >> 8) - 1)) << 8           # low byte zero
+    if cls == "ge256":
+        return draw(st.integers(256, n - 1))
+    if cls == "tail":
+        return n - 1 - draw(st.integers(0, 255))
+    if cls == "edge":
+        return draw(st.sampled_from([v for v in (255, 256, 257, 511, 512, n - 2, n - 256, n - 257) if 0 <= v < n]))
+    return draw(st.integers(0, n - 1))                           # anywhere (includes the control positions < 256)
+
+
+@st.composite
+def qtt_big_cases(draw, tier):
+    """optima_qtt on shapes [2^q]*d with q = 9..12 (mode sizes 512..4096), the optimum position known by construction."""
+    kind = draw(st.sampled_from(BIG_KINDS))
+    if 500 <= draw(st.integers(0, 999)) < 520:                   # ~2 % of the cases (a full beam over 2^18 elements takes 2..3 s)
+        kind = "full"
+    if kind == "full":
+        q, d = 9, 2                                              # 2^18 elements: the smallest shape with modes > 256
+    else:
+        q = draw(st.sampled_from(BIG_Q))
+        d = draw(st.sampled_from([2, 2, 3]))
+    term = lambda: {"p": [draw(big_index(q)) for _ in range(d)], "ties": draw(st.sampled_from([0, 0, 0, 0, 1, 2])),
+                    "zeros": draw(st.sampled_from([0, 0, 0, 0, 0, 1]))}
+    nterms = {"qsep": 1, "dominant": 1, "qsum": draw(st.integers(2, 3)), "full": draw(st.integers(1, 2))}[kind]
+    case = {"q": q, "d": d, "kind": kind, "fam": draw(st.sampled_from(["float", "float", "dyadic"])), "seed": draw(gen.seeds),
+            "terms": [term() for _ in range(nterms)]}
+    if kind == "dominant" or (kind == "full" and draw(st.booleans())):
+        case["spike"] = {"p": [draw(big_index(q)) for _ in range(d)], "sgn": draw(st.sampled_from([-1, 1])),
+                         "amp": draw(st.sampled_from(BIG_AMPS if kind == "dominant" else BIG_AMPS[:3]))}
+    case["k"] = 2 ** (q * d) + draw(st.integers(0, 3)) if kind == "full" else draw(st.sampled_from(BIG_K))
+    # the index map alone, also for longer bit strings and one mode
+    q2 = draw(st.sampled_from([9, 10, 12, 16, 17, 24, 30]))
+    case["I2"] = {"q": q2, "rows": [[draw(big_index(q2)) for _ in range(d2)] for d2 in [draw(st.integers(1, 3))] for _ in range(draw(st.integers(1, 3)))]}
+    case["I1"] = [[draw(big_index(q)) for _ in range(d)] for _ in range(draw(st.integers(0, 2)))]
+    return case
+
+
+def big_vector(rng, q, p, fam, ties, zeros):
+    """Kronecker-separable vector of length 2^q: bit j (weight 2^j) carries the 2-vector a_j whose entry of larger modulus sits at
+    bit j of p, the other one is rho_j times it, |rho_j| in [0.05, 0.95] (dyadic: 1/8..7/8); `ties` bits get |rho| = 1, `zeros`
+    bits rho = 0.  -> (vector, max |rho| < 1): max|v| = |v[p]|, every entry that is not of maximum modulus is <= max|rho|*max|v|."""
+    special = [int(j) for j in rng.permutation(q)[:ties + zeros]]
+    v, rmax = np.ones(1), 0.0
+    for j in range(q):
+        if fam == "dyadic":
+            big, rho = float(rng.integers(4, 17)) / 8.0, float(BIG_DYADIC[int(rng.integers(0, len(BIG_DYADIC)))])
+        else:
+            big, rho = float(rng.uniform(0.5, 2.0)), float(rng.uniform(0.05, 0.95))
+        if j in special[:ties]:
+            rho = 1.0
+        elif j in special[ties:]:
+            rho = 0.0
+        else:
+            rmax = max(rmax, rho)
+        big *= float(rng.choice([-1.0, 1.0]))
+        small = big * rho * float(rng.choice([-1.0, 1.0]))
+        a = np.array([small, big]) if (p >> j) & 1 else np.array([big, small])
+        v = np.kron(a, v)                                   # bit j becomes more significant than bits 0..j-1
+    return v, rmax
+
+
+def build_big(case):
+    """-> (cores, per-term mode vectors, max |rho| < 1 over all bits)."""
+    q, d, kind = case["q"], case["d"], case["kind"]
+    n = [2 ** q] * d
+    rng = np.random.default_rng(case["seed"])
+    terms, rmax = [], 0.0
+    for t in case["terms"]:
+        vecs = []
+        for k in range(d):
+            v, r = big_vector(rng, q, t["p"][k], case["fam"], t["ties"], t["zeros"])
+            if kind == "dominant":
+                v = v / float(np.linalg.norm(v))            # background of unit Frobenius norm
+            vecs.append(v)
+            rmax = max(rmax, r)
+        coef = 1.0 if kind in ("qsep", "dominant") else float(rng.uniform(0.5, 2.0)) * float(rng.choice([-1.0, 1.0]))
+        terms.append((coef, vecs))
+    if kind == "qsep":
+        return [v.reshape(1, -1, 1) for v in terms[0][1]], terms, rmax
+    all_terms = list(terms)
+    sp = case.get("spike")
+    if sp is not None:
+        all_terms.append((sp["sgn"] * sp["amp"], [np.eye(1, n[j], sp["p"][j])[0] for j in range(d)]))
+    if len(all_terms) == 1:
+        return [(all_terms[0][0] if j == 0 else 1.0) * v.reshape(1, -1, 1) for j, v in enumerate(all_terms[0][1])], terms, rmax
+    return sum_rank1(all_terms, n), terms, rmax
+
+
+def own_entry(Y, i):
+    """(entry, abs-majorant) of the TT-tensor at the multi-index i: plain left-to-right chain."""
+    v, a = np.ones(1), np.ones(1)
+    for G, ik in zip(Y, i):
+        v, a = v @ G[:, ik, :], a @ np.abs(G[:, ik, :])
+    return float(v[0]), float(a[0])
+
+
+def qtt_block(Zb, q):
+    """q QTT-cores of one mode (least significant bit first) -> the TT-core (r1, 2^q, r2) they denote."""
+    W = np.asarray(Zb[0], dtype=float)
+    for G in Zb[1:]:
+        W = np.einsum('a...b,bic->a...ic', W, np.asarray(G, dtype=float))
+    r1, r2 = W.shape[0], W.shape[-1]
+    return W.transpose(0, *range(q, 0, -1), q + 1).reshape(r1, 2 ** q, r2)
+
+
+def qtt_distance(Y, Zq, q):
+    """Upper bound of max|QTT image - Y| without a dense array: tt_to_qtt works core by core, so the image is the chain of the
+    blocks W_k ~ G_k, and |prod W - prod G| <= sum_k max_i||W_k[i] - G_k[i]||_F * prod_{j != k} max_i max(||W_j[i]||_F, ||G_j[i]||_F)."""
+    W = [qtt_block(Zq[k * q:(k + 1) * q], q) for k in range(len(Y))]
+    if any(w.shape != G.shape for w, G in zip(W, Y)):
+        return None
+    dk = [float(np.max(np.linalg.norm(w - G, axis=(0, 2)))) for w, G in zip(W, Y)]
+    ak = [float(max(np.max(np.linalg.norm(w, axis=(0, 2))), np.max(np.linalg.norm(G, axis=(0, 2))))) for w, G in zip(W, Y)]
+    return float(sum(dk[k] * math.prod(ak[j] for j in range(len(Y)) if j != k) for k in range(len(Y))))
+
+
+class BigRef:
+    """Reference for optima_qtt on a tensor too large for dense enumeration, extremes known by construction (duck type of `Ref`
+    for check_pair / sides / info).
+
+    The beam runs on the QTT image Zq (D = q*d binary modes).  eta = delta*sqrt(size) + 9*K*eps*prod||Zq_k||_F bounds the error of
+    every computed sub-tensor norm / entry (distance of the image, in Frobenius norm over a sub-tensor, plus the normwise rounding
+    bound of the module docstring).  For an image that is rank 1 up to that error a greedy step can only prefer a prefix whose
+    true sub-tensor norm is within 2*eta of the best one, which costs at most 2*eta in the final modulus (max <= Frobenius norm of
+    the remaining factor), D steps:  tau = 2*D*eta + 2*delta."""
+
+    def __init__(self, Y, Zq, q, mm, Fmin, Fmax, delta):
+        d, D = len(Y), len(Zq)
+        self.Y, self.d, self.n, self.size = Y, d, [2 ** q] * d, 2 ** (q * d)
+        self.rank1 = is_rank1(Y)
+        self.K = K_of(Y)
+        self.delta = delta
+        nf, P = prodnorm(Zq)
+        self.eta = delta * math.sqrt(float(self.size)) + 9 * K_of(Zq) * EPS * P
+        self.tau = 2 * D * self.eta + 2 * delta
+        self.mm, self.Fmin, self.Fmax = mm, Fmin, Fmax
+        # opposite side: the formula of `Ref` on the cores of the image (used only to tell `exact` from the open finding)
+        y1 = mm * (1 + 1e-9) + delta
+        c2 = y1 ** (2.0 / D) if y1 > 2e-16 else 1.0
+        SZ = float(math.prod(f * f + 2 * c2 for f in nf))
+        KZ = 32.0 * (D + sum((G.shape[2] + 1) ** 2 for G in Zq) + 2)
+        Dd = Fmax - Fmin
+        self.t = 8 * KZ * EPS * SZ + 4 * delta * (Dd + self.tau + delta)
+        rt = math.sqrt(self.t)
+        self.tol_opp = 2 * self.tau + (rt if Dd - self.tau <= 0 else min(rt, self.t / (Dd - self.tau)))
+
+
+def big_value(ctx, Y, K, i, y, what):
+    ctx.check(np.ndim(y) == 0 and isinstance(y, (float, np.floating)), f"{what}: value is not a float scalar", got=repr(y))
+    f, a = own_entry(Y, i)
+    ctx.check(np.isfinite(y) and abs(float(y) - f) <= K * EPS * a, f"{what}: returned value is not the tensor entry at the returned index",
+              got=float(y), ref=f, tol=K * EPS * a, index=list(i))
+    return float(y)
+
+
+def bits_of(p, q):
+    return [(int(v) >> j) & 1 for v in p for j in range(q)]
+
+
+def prop_qtt_big(case, ctx):
+    q, d, k, kind = case["q"], case["d"], case["k"], case["kind"]
+    n = [2 ** q] * d
+    Y, terms, rmax = build_big(case)
+    sp = case.get("spike")
+    peaks = [t["p"] for t in case["terms"]] + ([sp["p"]] if sp is not None else [])
+    ctx.label("big:" + kind, f"q=={q}", f"d=={d}", "fam:" + case["fam"], "k==1" if k == 1 else ("k>=size" if k >= 2 ** (q * d) else "1<k<size"))
+
+    # the index map on its own: bit strings of the constructed positions (and of some more), the case's q and a second, longer q
+    check_ind_qtt_to_tt(ctx, [bits_of(p, q) for p in peaks + case["I1"]], d, q)
+    check_ind_qtt_to_tt(ctx, [bits_of(p, case["I2"]["q"]) for p in case["I2"]["rows"]], len(case["I2"]["rows"][0]), case["I2"]["q"])
+
+    if kind == "full":
+        # nothing is pruned: dense enumeration of the 2^18 entries, all claims of `run_qtt`
+        run_qtt(ctx, Y, k, q, d, False, qsep=False, labels=True, diff=False)
+        F = dense(Y)
+        ctx.nt = bool(max(np.unravel_index(int(F.argmax()), F.shape)) >= 256 or max(np.unravel_index(int(F.argmin()), F.shape)) >= 256)
+        ctx.label("optimum_index>=256" if ctx.nt else "optimum_index<256")
+        return
+
+    Y0 = [G.copy() for G in Y]
+    Zq = ctx.lib(teneva.tt_to_qtt, Y, 1.E-12, 100)
+    ctx.check(isinstance(Zq, list) and len(Zq) == d * q and all(G.ndim == 3 and G.shape[1] == 2 for G in Zq),
+              "tt_to_qtt: not a list of d*q cores of mode size 2")
+    nfY, PY = prodnorm(Y)
+    cap = sum(q * (1e-12 * PY / f + 64 * math.sqrt(EPS) * PY) for f in nfY)          # a-priori bound of run_qtt
+    delta = qtt_distance(Y, Zq, q)
+    if delta is None or not np.isfinite(delta) or delta > cap:
+        ctx.label("qtt_delta_capped")
+        delta = cap
+    K = K_of(Y)
+
+    out = ctx.lib(teneva.optima_qtt, Y, k)
+    ctx.check(isinstance(out, tuple) and len(out) == 4, "optima_qtt: not a 4-tuple")
+    i_min, y_min, i_max, y_max = out
+    a = check_index(ctx, i_min, n, "optima_qtt(i_min)")
+    b = check_index(ctx, i_max, n, "optima_qtt(i_max)")
+    y_min = big_value(ctx, Y, K, a, y_min, "optima_qtt(y_min)")
+    y_max = big_value(ctx, Y, K, b, y_max, "optima_qtt(y_max)")
+    ctx.check(y_min <= y_max, "optima_qtt: y_min > y_max", y_min=y_min, y_max=y_max)
+    check_unmodified(ctx, Y, Y0)
+
+    # "transformed into the QTT-format and then optima_tt is applied": the indices are those of the QTT search, mapped back
+    jm, _, jM, _ = ctx.lib(teneva.optima_tt, Zq, k)
+    ctx.check(own_ind_qtt_to_tt(jm, d, q) == list(a) and own_ind_qtt_to_tt(jM, d, q) == list(b),
+              "optima_qtt: indices are not the optima_tt indices of the QTT image mapped back to TT indices",
+              qtt_min=np.asarray(jm).tolist(), qtt_max=np.asarray(jM).tolist(), tt_min=list(a), tt_max=list(b), q=q)
+    ctx.label("answer_index>=256" if max(a + b) >= 256 else "answer_index<256")
+
+    if kind == "qsum":
+        ctx.nt = max(a + b) >= 256                               # validity + agreement with the QTT search only (pruned beam, rank >= 2)
+        return
+
+    if kind == "dominant":
+        # Y = B + amp*e_p, ||B||_F = 1, |amp| >= 3: the sub-tensor norm at every prefix / suffix of p is >= |amp| - 1 >= 2, at every
+        # other partial index <= 1, so the beam keeps p in first place for every k >= 1 in both sweeps (margin |amp| - 2 against eta)
+        p, amp = tuple(sp["p"]), sp["sgn"] * sp["amp"]
+        ref = BigRef(Y, Zq, q, abs(own_entry(Y, p)[0]), 0.0, 0.0, delta)
+        ctx.nt = max(p) >= 256
+        if not ref.eta < 0.25 * (abs(amp) - 2.0):
+            ctx.label("big:unconstrained(eta)")
+            ctx.nt = False
+            return
+        got, y = (b, y_max) if amp > 0 else (a, y_min)
+        ctx.check(got == p, "optima_qtt: an isolated entry that dominates the Frobenius norm of the rest of the tensor by a factor 3 is not "
+                  "reported as the " + ("maximum" if amp > 0 else "minimum"), got=list(got), value=y, expected=list(p),
+                  expected_value=own_entry(Y, p)[0], amp=amp, k=k, q=q, d=d, eta=ref.eta)
+        return
+
+    # kind qsep: rank-1 TT-tensor whose QTT image is rank 1 by construction -> exact for every k on the max-modulus side
+    vecs = terms[0][1]
+    mm = float(math.prod(float(np.max(np.abs(v))) for v in vecs))
+    ends = [math.prod(c) for c in itertools.product(*[(float(v.min()), float(v.max())) for v in vecs])]
+    ref = BigRef(Y, Zq, q, mm, float(min(ends)), float(max(ends)), delta)
+    gap = mm * (1.0 - rmax)                                       # distance from max|Y| to the next smaller modulus
+    teeth = ref.tau < 0.5 * gap
+    ctx.label("big:teeth" if teeth else "big:no_teeth(tau>=gap/2)", "qtt_image_rank1" if max(G.shape[2] for G in Zq) == 1 else "qtt_image_rank1+junk")
+    if case["terms"][0]["ties"]:
+        ctx.label("ties")
+    ctx.nt = teeth and max(case["terms"][0]["p"]) >= 256
+    check_pair(ctx, ref, y_min, y_max, k, "optima_qtt", q_not_rank1=False, rank1_input=True)
 
 
 # ------------------------------------------------------------------------------------------------ functional variant
@@ -1620,6 +1915,7 @@ def prop_long(case, ctx):
 
 
 SUBCHECKS = [
+    Sub("qtt_big", prop_qtt_big, strategy=qtt_big_cases, quick=40, thorough=300),
     Sub("long", prop_long, strategy=long_cases, quick=24, thorough=500),
     Sub("hidden", prop_hidden, strategy=hidden_cases, quick=40, thorough=600),
     Sub("tt", prop_tt, strategy=tt_cases, quick=100, thorough=1500),
